@@ -179,9 +179,11 @@ def site_post(prop, var):
             if mk:
                 r = rl.ty.val(rl.z)
                 q = r / (conc * 16)
-                res.oblige(p, f'{prop}.site.chunk_size_formula', z3.And(
-                    sym.lift(v, INT).z == z3.If(q > 1, q, 1),
-                    ops.unwrap_opt(res.interp, p.st, mk[0].data['limit'], 'limit').z == r))
+                # premise of the single-stream proof: the commands choose request sizes d <= L/4 (for L >= 4)
+                res.oblige(p, f'{prop}.site.chunk_size_at_most_quarter_of_limit', z3.Implies(r >= 4, z3.And(
+                    sym.lift(v, INT).z >= 1, sym.lift(v, INT).z * 4 <= r)))
+                res.oblige(p, f'{prop}.site.limiter_gets_the_limit', ops.unwrap_opt(res.interp, p.st, mk[0].data['limit'], 'limit').z == r)
+                res.oblige(p, f'{prop}.site.chunk_size_formula', sym.lift(v, INT).z == z3.If(q > 1, q, 1), tag='helper')
             else:
                 res.oblige(p, f'{prop}.site.unlimited_only_without_rate_limit', rl.ty.is_none(rl.z))
     return post
